@@ -98,6 +98,9 @@ def gen_ops(rng, case, n, weights):
             ops.append(['enable', enabled])
         elif name == 'probe':
             ops.append(['probe'])
+        elif name == 'newclass':
+            ops.append(['newclass', rng.randrange(ncls)])
+            ncls += 1
         else:
             raise ValueError(name)
     return ops
@@ -238,6 +241,7 @@ class Driver:
         return self.events[comp.cls_index]
 
     def new_comp(self, cls_index):
+        cls_index %= len(self.classes)
         c = self.classes[cls_index]()
         c.uid = self.next_uid
         c.cls_index = cls_index
@@ -285,7 +289,14 @@ class Driver:
                'note': {}}
         m.trans = []
         del self.log[:]
-        if name == 'create':
+        if name == 'newclass':
+            # a component class defined after the world has been queried
+            base = op[1] % len(self.classes)
+            self.classes.append(type(f'Late{len(self.classes)}',
+                                     (self.classes[base],), {}))
+            self.events.append(dict(self.events[base]))
+            rec['ret'], rec['exc'] = None, None
+        elif name == 'create':
             comps = [self.new_comp(k) for k in op[1]]
             rec['uids'] = [c.uid for c in comps]
             if op[2] is None:
@@ -331,7 +342,7 @@ class Driver:
             e, ok = self.resolve(op[1])
             if not ok:
                 return None
-            t = self.classes[op[2]]
+            t = self.classes[op[2] % len(self.classes)]
             rec['entity'] = e
             candidates = m.matching(e, t)
             exact = m.rows.get(e, {}).get(t)
@@ -443,6 +454,12 @@ def _callback(driver, kind):
         if kind in ('add', 'remove'):
             entry['entity'] = args[0] if args else None
             entry['args_ok'] = (len(args) == 2 and args[1] is w)
+            if kind == 'add':
+                # the component is attached by now: is it a listener yet?
+                try:
+                    entry['registered'] = w.is_handler(self)
+                except Exception as ex:
+                    entry['registered'] = repr(ex)
         else:
             entry['token'] = args[0] if args else None
         driver.log.append(entry)
